@@ -917,6 +917,8 @@ func (fv *FV) execNode(n *INode, st *State) {
 		fv.rangeInit(n.Range, st)
 	case NRangeBind:
 		fv.rangeBind(n.Range, st)
+	case NRangeNext:
+		fv.rangeNext(n.Range, st)
 	case NStmt:
 		fv.execStmt(n.Stmt, cx)
 		fv.afterStmt(n.Stmt, st)
@@ -936,14 +938,19 @@ func (fv *FV) afterStmt(s ast.Stmt, st *State) {
 	}
 }
 
-func (fv *FV) ghostAssign(g *GhostStmt, st *State) {
+func (fv *FV) ghostAssign(g *GhostStmt, st *State) { fv.ghostAssignEnv(g, st, map[string]TV{}) }
+
+func (fv *FV) ghostAssignEnv(g *GhostStmt, st *State, env map[string]TV) {
 	pos := fv.fn.Body.Lbrace + 1
 	if fv.cur != nil && len(fv.cur.Nodes) > 0 {
 		if s := fv.cur.Nodes[len(fv.cur.Nodes)-1].Stmt; s != nil {
 			pos = s.End()
 		}
 	}
-	cx := &Cx{st: st, old: fv.entry, contract: true, scopePos: pos, noOb: true, env: map[string]TV{}, what: "ghost"}
+	if g.At == "return" || g.At == "entry" {
+		pos = fv.fn.Body.Lbrace + 1
+	}
+	cx := &Cx{st: st, old: fv.entry, contract: true, scopePos: pos, noOb: true, env: env, what: "ghost"}
 	if g.Use != nil {
 		fv.useLemma(g.Use, st, cx, pos)
 		return
@@ -1151,14 +1158,136 @@ func (fv *FV) callMulti(e ast.Expr, cx *Cx) []TV {
 // ---------------------------------------------------------------------------------------------
 // range loops
 
+// ListIter: a method of the unit that returns an iterator (iter.Seq / iter.Seq2) over an intrusive singly linked list:
+//
+//	element := recv.<Front>; for element != nil { if !yield([i,] element) { return }; [i++;] element = element.<Next> }
+//
+// ASSUMED CONTRACT of such a method together with the language semantics of range-over-func: `for [i,] e := range
+// recv.M()` runs its body on the list elements in list order; the cursor advances after the body (reading <Next> from the
+// heap as it is then); leaving the loop early (break, return) ends the iteration. The unit loader checks that the method's
+// source text is the one this model was written for.
+type ListIter struct {
+	Struct    string // name of the node struct type
+	Front     string // field of the receiver holding the first element
+	Next      string // field of an element holding its successor
+	WithIndex bool   // iter.Seq2[int, *T]: the first loop variable is the running index
+}
+
 func (fv *FV) rangeCells(rs *ast.RangeStmt) (xc, ic string) {
 	off := fv.u.Fset.Position(rs.Pos()).Offset
 	return fmt.Sprintf("$rngx!%d", off), fmt.Sprintf("$rngi!%d", off)
 }
 
+// listIterCall: e is a call recv.M() of one of the unit's list iterators.
+func (fv *FV) listIterCall(e ast.Expr) (*ListIter, *ast.CallExpr) {
+	call, ok := unparen(e).(*ast.CallExpr)
+	if !ok || len(call.Args) != 0 || len(fv.u.ListIters) == 0 {
+		return nil, nil
+	}
+	selx, ok := unparen(call.Fun).(*ast.SelectorExpr)
+	if !ok {
+		return nil, nil
+	}
+	sel, ok := fv.u.Info.Selections[selx]
+	if !ok || sel.Kind() != types.MethodVal {
+		return nil, nil
+	}
+	fn := sel.Obj().(*types.Func)
+	if fn.Pkg() != fv.u.Pkg.Types {
+		return nil, nil
+	}
+	rt := fn.Type().(*types.Signature).Recv().Type()
+	if p, ok := rt.(*types.Pointer); ok {
+		rt = p.Elem()
+	}
+	li := fv.u.ListIters[typeName(rt)+"."+fn.Name()]
+	if li == nil {
+		return nil, nil
+	}
+	return li, call
+}
+
+// rangeOverList classifies the operand of a range statement: a list iterator (live: the successor is read from the current
+// heap) or slices.Collect(list iterator) (snapshot: Collect has walked the list before the loop starts).
+func (fv *FV) rangeOverList(rs *ast.RangeStmt) (li *ListIter, call *ast.CallExpr, snapshot bool) {
+	if li, call = fv.listIterCall(rs.X); li != nil {
+		return li, call, false
+	}
+	if c, ok := unparen(rs.X).(*ast.CallExpr); ok && len(c.Args) == 1 && fv.isPkgFunc(c.Fun, "slices", "Collect") {
+		if li, call = fv.listIterCall(c.Args[0]); li != nil {
+			return li, call, true
+		}
+	}
+	return nil, nil, false
+}
+
+// isPkgFunc: fun denotes the function pkgPath.name (possibly instantiated explicitly).
+func (fv *FV) isPkgFunc(fun ast.Expr, pkgPath, name string) bool {
+	fun = unparen(fun)
+	if ix, ok := fun.(*ast.IndexExpr); ok {
+		fun = unparen(ix.X)
+	}
+	selx, ok := fun.(*ast.SelectorExpr)
+	if !ok {
+		return false
+	}
+	fn, ok := fv.u.Info.Uses[selx.Sel].(*types.Func)
+	return ok && fn.Pkg() != nil && fn.Pkg().Path() == pkgPath && fn.Name() == name
+}
+
+// lowerOpts: the type-dependent decisions of the CFG lowering.
+func (fv *FV) lowerOpts() *LowerOpts {
+	return &LowerOpts{
+		FuncRange: func(rs *ast.RangeStmt) bool {
+			li, _, _ := fv.rangeOverList(rs)
+			return li != nil
+		},
+		CallbackLoop: func(e ast.Expr) (*ast.CallExpr, *ast.FuncLit, bool) {
+			call, ok := e.(*ast.CallExpr)
+			if !ok || len(call.Args) != 2 || !fv.isPkgFunc(call.Fun, "slices", "ContainsFunc") {
+				return nil, nil, false
+			}
+			lit, ok := unparen(call.Args[1]).(*ast.FuncLit)
+			if !ok {
+				return nil, nil, false
+			}
+			fv.u.Assumptions["slices.ContainsFunc(s, f) executed by its definition: for _, v := range s { if f(v) { return true } }; return false"] = true
+			return call, lit, true
+		},
+	}
+}
+
+// listField: current term of the heap cell of field `name` of the list's node struct.
+func (fv *FV) listField(st *State, li *ListIter, name string) string {
+	cell := "H!" + li.Struct + "." + name
+	if obj := fv.u.lookupTypeName(li.Struct); obj != nil {
+		if stt, ok := obj.Type().Underlying().(*types.Struct); ok {
+			for i := 0; i < stt.NumFields(); i++ {
+				if stt.Field(i).Name() == name {
+					fv.cellType[cell] = stt.Field(i).Type()
+				}
+			}
+		}
+	}
+	return fv.get(st, cell, arr(SInt, SInt))
+}
+
 func (fv *FV) rangeInit(rs *ast.RangeStmt, st *State) {
 	cx := fv.codeCx(st)
 	xc, ic := fv.rangeCells(rs)
+	if li, call, snapshot := fv.rangeOverList(rs); li != nil {
+		selx := unparen(call.Fun).(*ast.SelectorExpr)
+		r := fv.recvValue(selx.X, call, cx)
+		fv.safety(st, not(eq(r.T, "0")), "nil dereference: receiver of "+exprText(call.Fun), call.Pos(), cx)
+		fv.u.Assumptions["range over (*"+li.Struct+") list iterators walks "+li.Front+", "+li.Next+", ... in order, advancing after the body (model of range-over-func; the iterator's source text is checked by the loader)"] = true
+		fv.set(st, xc, SInt, sel(fv.listField(st, li, li.Front), r.T))
+		fv.set(st, ic, SInt, "0")
+		if snapshot {
+			fv.u.Assumptions["slices.Collect(seq) returns the values yielded by seq, in order (the list is walked once, before the loop)"] = true
+			fv.set(st, xc+"!h", arr(SInt, SInt), fv.listField(st, li, li.Next))
+		}
+		return
+	}
 	xt := fv.u.Info.TypeOf(rs.X)
 	switch t := types.Unalias(xt).Underlying().(type) {
 	case *types.Slice, *types.Basic:
@@ -1175,12 +1304,31 @@ func (fv *FV) rangeInit(rs *ast.RangeStmt, st *State) {
 
 func (fv *FV) rangeHas(rs *ast.RangeStmt, st *State) string {
 	xc, ic := fv.rangeCells(rs)
+	if li, _, _ := fv.rangeOverList(rs); li != nil {
+		return not(eq(fv.get(st, xc, SInt), "0"))
+	}
 	xt := fv.u.Info.TypeOf(rs.X)
 	i := fv.get(st, ic, SInt)
 	if _, ok := types.Unalias(xt).Underlying().(*types.Slice); ok {
 		return sx("<", i, sx("sl_len", fv.get(st, xc, "Slice")))
 	}
 	return sx("<", i, fv.get(st, xc, SInt))
+}
+
+// rangeNext: the advance step of a range over a list iterator (after the body): cursor = cursor.next; index++.
+func (fv *FV) rangeNext(rs *ast.RangeStmt, st *State) {
+	li, _, snapshot := fv.rangeOverList(rs)
+	if li == nil {
+		return // slices and integers advance in rangeBind
+	}
+	xc, ic := fv.rangeCells(rs)
+	cur := fv.get(st, xc, SInt)
+	next := fv.listField(st, li, li.Next)
+	if snapshot {
+		next = fv.get(st, xc+"!h", arr(SInt, SInt))
+	}
+	fv.set(st, xc, SInt, sel(next, cur))
+	fv.set(st, ic, SInt, sx("+", fv.get(st, ic, SInt), "1"))
 }
 
 func (fv *FV) rangeBind(rs *ast.RangeStmt, st *State) {
@@ -1198,22 +1346,45 @@ func (fv *FV) rangeBind(rs *ast.RangeStmt, st *State) {
 		}
 		if rs.Tok == token.DEFINE {
 			v := fv.u.Info.Defs[id].(*types.Var)
+			if val.Ty == nil {
+				val.Ty = v.Type()
+			}
 			fv.defineVar(v, val, cx)
 			return
 		}
 		fv.write(fv.loc(e, cx), val.T, cx)
 	}
+	cbParam := fv.g.Callback[rs] // inlined callback: the literal's parameter receives the element
+	if li, _, _ := fv.rangeOverList(rs); li != nil {
+		elem := TV{T: fv.get(st, xc, SInt), S: SInt}
+		switch {
+		case cbParam != nil:
+			bind(cbParam, elem)
+		case li.WithIndex:
+			bind(rs.Key, TV{T: i, Ty: tInt, S: SInt})
+			bind(rs.Value, elem)
+		default:
+			bind(rs.Key, elem)
+		}
+		return
+	}
 	if sl, ok := types.Unalias(xt).Underlying().(*types.Slice); ok {
 		x := fv.get(st, xc, "Slice")
 		es := fv.u.sortOf(sl.Elem())
-		bind(rs.Key, TV{T: i, Ty: tInt, S: SInt})
-		if rs.Value != nil {
+		if cbParam == nil {
+			bind(rs.Key, TV{T: i, Ty: tInt, S: SInt})
+		}
+		if rs.Value != nil || cbParam != nil {
 			e := fv.get(st, "E!"+string(es), arr(SInt, arr(SInt, es)))
 			v := sel(sel(e, sx("sl_base", x)), sx("sidx", sx("sl_off", x), i))
 			c := fv.decl(fv.fresh("elem"), es)
 			fv.emit(fmt.Sprintf("(assert (= %s %s))", c, v))
 			fv.assume(st, fv.typeFacts(sl.Elem(), c, st))
-			bind(rs.Value, TV{T: c, Ty: sl.Elem(), S: es})
+			if cbParam != nil {
+				bind(cbParam, TV{T: c, Ty: sl.Elem(), S: es})
+			} else {
+				bind(rs.Value, TV{T: c, Ty: sl.Elem(), S: es})
+			}
 		}
 	} else {
 		bind(rs.Key, TV{T: i, Ty: xt, S: SInt})
